@@ -199,7 +199,9 @@ class Res:
             return False
         fx = F(x)
         if self.integer:
-            if fx.denominator != 1:
+            # an integer-typed side yields a Python int ("integer results rounded to nearest"):
+            # 2.0 or 2.5 are not results of an integer type
+            if not is_int(x):
                 return False
             for lo, hi, tol in self.parts:
                 if lo - tol - F(1, 2) <= fx <= hi + tol + F(1, 2):
